@@ -88,6 +88,17 @@ CHECKS = {
         note="Numerical tolerances 1e-6 (constructed matrices) / 1e-9 relative (rigid motions); collinear dihedral triples excluded; reference geometry centred as every caller does.",
         technique="property-based testing against algebraic definitions + metamorphic pose-independence relation",
     ),
+    "C12": dict(
+        category="exploration",
+        text="Constructed 3-D fragments (jittered lattice, random tree + ring closures, attachment point with any bond type, random rigid pose; also exactly parallel / "
+             "antiparallel / z-aligned attachment vectors) are joined with generated options (dist, optimize_rotation, charge incl. 0 / mult / name / bond overrides) through "
+             "Molecule.join and Structure.join, and iteratively on multi-attachment cores exactly as molli combine does. Oracle: atom and bond transfer field by field, new bond "
+             "type, proper rigid fit of each fragment (own Kabsch, mirror detected separately), bond length, frame-free bond-direction test from both fragments, charge / "
+             "multiplicity, bit-identical coordinates under two np.random states, sources unchanged, nothing shared.",
+        design_ref="DESIGN.md section 5, C12",
+        note="Rotamer about the new bond not prescribed under optimize_rotation; partial charges of the product not asserted; combine.py's loop restated (openbabel import).",
+        technique="property-based testing with constructive 3-D fragment generators and an independent geometric oracle",
+    ),
     "C02": dict(
         category="exploration",
         text="Bounded-exhaustive (all op sequences up to length 4/5 over a 14-letter alphabet on two raw UKVFile handles) plus random "
